@@ -275,6 +275,47 @@ func TestC06_R_F12_LeadingEmptyChunk(t *testing.T) {
 	}
 }
 
+// F13: a dag-pb node of UnixFS type Raw that has links is read as a multi-block file; the preload view must preload it.
+func TestC06_R_F13_RawTypedFileWithLinks(t *testing.T) {
+	for _, rootType := range []uint64{0, 2} {
+		for _, midType := range []uint64{0, 2} {
+			leaf := func(s string) *mnode { return &mnode{IsRaw: true, Raw: []byte(s)} }
+			mid := &mnode{HasData: true, UFS: &ufsFields{Type: midType, BlockSizes: []uint64{2, 2}, FileSize: u64p(4)},
+				Links: []mlink{{Tsize: i64p(2), Child: leaf("ab")}, {Tsize: i64p(2), Child: leaf("cd")}}}
+			m := &mnode{HasData: true, UFS: &ufsFields{Type: rootType, BlockSizes: []uint64{4, 2}, FileSize: u64p(6)},
+				Links: []mlink{{Tsize: i64p(4), Child: mid}, {Tsize: i64p(2), Child: leaf("ef")}}}
+			st := NewStore()
+			ls := st.LinkSystem()
+			root, err := m.store(st, ls)
+			if err != nil {
+				t.Fatal(err)
+			}
+			ft, _ := st.FileTree(root, 0)
+			pn, _ := loadPlain(ls, root)
+			st.ResetLogs()
+			rn, err := ls.KnownReifiers["unixfs-preload"](lc0, pn, ls)
+			if err != nil {
+				t.Fatalf("C06 F13 types %d/%d: %v", rootType, midType, err)
+			}
+			got := cidSet(st.ReadLog())
+			for _, c := range ft.PreOrder()[1:] {
+				if !got[c] {
+					t.Fatalf("C06 F13: file with root type %d, interior type %d: preload never requested block %s", rootType, midType, c)
+				}
+			}
+			if b, err := rn.AsBytes(); err != nil || string(b) != "abcdef" {
+				t.Fatalf("C06 F13: content %q err %v", b, err)
+			}
+			for _, c := range ft.PreOrder()[1:] {
+				st.Missing = map[cid.Cid]bool{c: true}
+				if _, err := ls.KnownReifiers["unixfs-preload"](lc0, pn, ls); err == nil {
+					t.Fatalf("C06 F13: file with root type %d, interior type %d: preload succeeded although block %s is unavailable", rootType, midType, c)
+				}
+			}
+		}
+	}
+}
+
 // Link systems set up independently must stay independent: what the owner of one does to its own KnownReifiers table
 // must not change how another one preloads.
 func TestC06_R_LinkSystemsAreIndependent(t *testing.T) {
